@@ -252,6 +252,9 @@ def sv():
             yield Program([Eq(Term('Y'), ctx, [Verb(frag), Term('W', 'v', -1)])], 'SV')
             yield Program([Eq(Term('Y'), ctx + ' + PH2', [Verb(frag), Term('W', 'v', -1), Term('W')])], 'SV')
     yield Program([Eq(Term('Y'), 'PH0 * PH1', [Verb('self._W[t]'), Verb('self._W[t-1]')]), Eq(Term('Z'), 'PH0 + PH1', [Term('W', 'v', -1), Term('Y')])], 'SV')
+    # two and three fragments in one statement with ordinary terms (a lag, a parameter) between them
+    yield Program([Eq(Term('Y'), 'PH0 * PH1 + PH2 * PH3', [Verb('2.0'), Term('X', 'v', -1), Verb('self._W[t-1]'), Term('a', 'p')]), Eq(Term('Z'), 'PH0 + PH1', [Term('W', 'v', -1), Term('Y')])], 'SV')
+    yield Program([Eq(Term('Y'), 'PH0 + PH1 - PH2 + PH3 + PH4', [Verb('1.5'), Term('W', 'v', -2), Verb('abs(-2)'), Term('e', 'e'), Verb('self._W[t]')])], 'SV')
 
 
 S2_LEAVES = [
